@@ -56,6 +56,12 @@ def gen_cases(rng, n, tier):
     for i in range(max(10, n // 12)):
         out.append(dict(kind='O', cfg=dict(shape='orphan', strategy='validity' if i % 2 else 'subquery', joined=(i % 3 == 0)),
                         prog=gen_orphan_prog(rng)))
+    # two real database connections (a database file): a statement on the many-to-many association table over a
+    # connection of the application's own while another session's transaction is open (added after ninth-round
+    # seeded change C07_9_assoc_lookup_unguarded was missed)
+    for i in range(max(8, n // 40)):
+        out.append(dict(kind='O', cfg=dict(shape='orphan', strategy='validity' if i % 2 else 'subquery', cross=True),
+                        prog=gen_cross_prog(rng)))
     for i in range(max(10, n // 10)):
         cfg = dict(B.all_cfgs('blog')[i % 32])
         cfg['twin'] = False
@@ -397,10 +403,130 @@ def _run_orphan(env, prog):
         s.close()
 
 
+def gen_cross_prog(rng):
+    prog = [['a_add', 1], ['a_add', 2], ['a_commit']]
+    for _ in range(rng.randint(1, 3)):
+        r = rng.random()
+        if r < 0.7:
+            prog += [['a_touch', rng.choice([1, 2])], ['a_flush']]       # a flush that writes nothing: no database lock
+        elif r < 0.85:
+            prog += [['a_set', rng.choice([1, 2]), rng.choice([3, 4, 5])], ['a_flush']]
+        for _ in range(rng.randint(1, 2)):
+            prog.append([rng.choice(['b_link', 'b_link', 'b_unlink']), rng.choice([1, 2]), rng.choice([1, 2])])
+        prog.append([rng.choice(['a_commit', 'a_commit', 'a_rollback'])])
+    return prog
+
+
+def build_cross(cfg):
+    import sqlalchemy as sa
+
+    def build(env, Base, opts):
+        v = {'__versioned__': dict(opts)} if opts is not None else {}
+        env.marks = sa.Table('article_tag', Base.metadata,
+                             sa.Column('article_id', sa.Integer, sa.ForeignKey('article.id'), primary_key=True),
+                             sa.Column('tag_id', sa.Integer, sa.ForeignKey('tag.id'), primary_key=True))
+        Tag = type('Tag', (Base,), dict(__tablename__='tag', id=sa.Column(sa.Integer, primary_key=True, autoincrement=False),
+                                        a=sa.Column(sa.Integer), **v))
+        Article = type('Article', (Base,), dict(
+            __tablename__='article', id=sa.Column(sa.Integer, primary_key=True, autoincrement=False), a=sa.Column(sa.Integer),
+            tags=sa.orm.relationship(Tag, secondary=env.marks, backref='articles'), **v))
+        env.classes = [Article, Tag]
+        env.assoc = []
+        env.sub = None
+    return build
+
+
+def _run_cross(env, prog):
+    """session A on its own pooled connection; the b_* statements on a second connection, committed at once"""
+    import sqlalchemy as sa
+    Article, Tag = env.classes
+    s = env.session()
+    outcomes = []
+    try:
+        for op in prog:
+            try:
+                k = op[0]
+                if k == 'a_add':
+                    s.add(Article(id=op[1], a=0))
+                    s.add(Tag(id=op[1], a=0))
+                elif k in ('a_touch', 'a_set'):
+                    o = s.get(Article, op[1])
+                    if o is None:
+                        outcomes.append('skip')
+                        continue
+                    o.a = o.a if k == 'a_touch' else op[2]
+                elif k == 'a_flush':
+                    s.flush()
+                elif k == 'a_commit':
+                    s.commit()
+                elif k == 'a_rollback':
+                    s.rollback()
+                elif k in ('b_link', 'b_unlink'):
+                    cb = env.engine.connect()
+                    try:
+                        if k == 'b_link':
+                            cb.execute(env.marks.insert(), {'article_id': op[1], 'tag_id': op[2]})
+                        else:
+                            cb.execute(env.marks.delete().where(sa.and_(env.marks.c.article_id == op[1],
+                                                                        env.marks.c.tag_id == op[2])))
+                        cb.commit()
+                    except Exception:
+                        cb.rollback()
+                        raise
+                    finally:
+                        cb.close()
+                outcomes.append('ok')
+            except Exception as e:
+                outcomes.append('error:' + type(e).__name__)
+                if op[0].startswith('a_'):
+                    s.rollback()
+        s.rollback()
+        conn = s.connection()
+        live = [[0] + list(r) for r in conn.execute(sa.select(Article.__table__).order_by(Article.__table__.c.id))] + \
+               [[1] + list(r) for r in conn.execute(sa.select(Tag.__table__).order_by(Tag.__table__.c.id))] + \
+               sorted([3] + list(r) for r in conn.execute(sa.select(env.marks)))
+        s.rollback()
+        return outcomes, live
+    finally:
+        s.close()
+
+
+def _cross_twin(cfg, prog):
+    import os
+    import shutil
+    import tempfile
+    d = tempfile.mkdtemp(prefix='c07x_', dir='/dev/shm' if os.path.isdir('/dev/shm') else None)
+    try:
+        res = []
+        for versioned in (True, False):
+            url = 'sqlite:///%s/%d.db?timeout=0.2' % (d, int(versioned))
+            kw = dict(options=hist.options_for(cfg), plugins=hist.plugins_for(cfg)) if versioned else dict(versioned=False)
+            with E.Env(build=build_cross(cfg), url=url, bind_engine=True, **kw) as env:
+                try:
+                    res.append(_run_cross(env, prog))
+                finally:
+                    env.connection.close()
+                    env.engine.dispose()
+        return res
+    finally:
+        shutil.rmtree(d, ignore_errors=True)
+
+
 def _worker_O(chunk):
     cfg, items = chunk
     out = []
     for idx, case in items:
+        if cfg.get('cross'):
+            try:
+                (o1, l1), (o2, l2) = _cross_twin(cfg, case['prog'])
+                out.append((idx, dict(kind='O', trace=[], snaps=[], ccfg=[], outcomes=o1, plain_outcomes=o2, final_live=l1,
+                                      plain_live=l2, exc=None, plain_exc=None, changed_entities=None)))
+            except Exception as e:
+                import traceback
+                out.append((idx, dict(kind='O', trace=[], snaps=[], ccfg=[], outcomes=[], plain_outcomes=[], final_live=None,
+                                      plain_live=None, changed_entities=None,
+                                      exc='%s: %s %s' % (type(e).__name__, e, traceback.format_exc()[-400:]))))
+            continue
         try:
             with E.Env(options=hist.options_for(cfg), plugins=hist.plugins_for(cfg), build=build_orphan(cfg)) as env:
                 o1, l1 = _run_orphan(env, case['prog'])
@@ -457,6 +583,8 @@ def encode(case, obs):
 
 
 def nontrivial(case, obs):
+    if case['kind'] == 'O' and case['cfg'].get('cross'):
+        return any(op[0] in ('b_link', 'b_unlink') for op in case['prog']) and 'ok' in (obs.get('outcomes') or [])
     if case['kind'] == 'O':
         return any(op[0] in ('orphan', 'delp') for op in case['prog']) and 'ok' in (obs.get('outcomes') or [])
     if case['kind'] == 'R':
@@ -470,6 +598,8 @@ def nontrivial(case, obs):
 
 
 def features(case, obs):
+    if case['kind'] == 'O' and case['cfg'].get('cross'):
+        return ['kind=O', 'cross-connection', 'b_ops=%d' % sum(1 for op in case['prog'] if op[0].startswith('b_'))]
     if case['kind'] == 'O':
         return ['kind=O', 'strategy=' + case['cfg']['strategy'], 'orphans=%d' % sum(1 for op in case['prog'] if op[0] == 'orphan')]
     if case['kind'] == 'R':
